@@ -140,6 +140,66 @@ def scheduled(chk, runner, tier, avoid):
             chk.violation('sched-unexpected-error', 'error-free scripts raised %s in %s' % (errs[0][2][:200], label), {'src': src, 'budget': budget})
 
 
+def short_operands(chk, runner, tier):
+    """a nested block comes up short of operands (an element or operand expression over an undefined variable yields no value) while the
+    enclosing expression has operands pending: the shortage must be reported as an error, and must never be made up from the operands of
+    the enclosing scopes. With the error handled inside (except__) the enclosing literal still holds exactly what it pushed."""
+    n = 240 if tier == 'quick' else 6000
+    items, meta = [], []
+    for i in range(n):
+        rng = core.rng('c05short', i)
+        u = '_undef%d' % rng.randint(0, 9)
+        none = rng.choice(['count %s' % u, '%s + 1' % u, '%s select 0' % u, 'str %s' % u, '-%s' % u])
+        k = rng.randint(0, 3)
+        elems = [str(rng.randint(1, 9)) for _ in range(k)]
+        elems.insert(rng.randint(0, k), none)
+        short = rng.choice(['[%s]' % ', '.join(elems), '%d + (%s)' % (rng.randint(1, 9), none), '(%s) max %d' % (none, rng.randint(1, 9)), '[%s, [%s]]' % (rng.randint(1, 9), ', '.join(elems))])
+        pre = '; '.join(['_a%d = %d' % (j, j) for j in range(rng.randint(1, 3))])
+        body = '%s; %s' % (pre, short)
+        handled = rng.random() < 0.5
+        if handled:
+            nested = '{ %s } except__ { "caught" }' % body
+        else:
+            nested = rng.choice(['call { %s }', 'if true then { %s }', '[] call { %s }', 'call { call { %s } }', '({ %s } forEach [1])']) % body
+        pend = [str(rng.randint(10, 99)) for _ in range(rng.randint(1, 4))]
+        form = rng.choice(['array', 'array', 'nested-array', 'arith'])
+        if form == 'array':
+            outer = '[%s, %s, %d]' % (', '.join(pend), nested, 7)
+            want = '[%s,"caught",7]' % ','.join(pend)
+        elif form == 'nested-array':
+            outer = '[%s, [%s, %s], %d]' % (pend[0], ', '.join(pend), nested, 7)
+            want = '[%s,[%s,"caught"],7]' % (pend[0], ','.join(pend))
+        else:
+            outer = '[%s, %s + count [%s], %d]' % (pend[0], pend[-1], nested, 7)
+            want = '[%s,%d,7]' % (pend[0], int(pend[-1]) + 1)
+        src = '_r = %s; diag_log str ["R", _r]' % outer
+        items.append([{'op': 'run', 'vm': 0, 'src': src, 'path': '/vh/short.sqf', 'reset_ts': True, 'mon': True}])
+        meta.append((src, handled, want, form))
+    prefix = [{'op': 'vm', 'vm': 0, 'max_runtime_ms': 2000, 'auto_renew': True, 'mon': {'stack': True}}]
+    results = core.run_items(runner, prefix, items, batch=20, base_cpu_ms=5000, item_cpu_ms=lambda it: 1000)
+    for (src, handled, want, form), r in zip(meta, results):
+        chk.evaluations += 1
+        chk.count('short_operand_programs')
+        chk.sig('short|%s|%s|%d' % (form, handled, len(src) // 20))
+        if isinstance(r, core.Death):
+            chk.death_is_violation(r, 'short-operand program `%s`' % src, {'src': src})
+            continue
+        st = r[-1]
+        viol, mon = mon_viol(st)
+        errs = core.error_logs(core.logs_of(st))
+        trace = core.diag_values(core.logs_of(st))
+        if viol:
+            chk.violation('short-monitor-' + viol[0].split(' ')[0], 'operand-stack monitor: %s in `%s`' % (viol[0], src), {'src': src, 'monitor': viol})
+        elif not errs:
+            chk.violation('short-operands-silent|' + form, 'a block that came up short of operands raised no error in `%s`; trace %s' % (src, trace), {'src': src})
+        elif handled and trace != ['["R",%s]' % want]:
+            chk.violation('short-operands-enclosing|' + form, 'after a handled shortage inside a nested block the enclosing expression gave %s, its operands were %s, in `%s`' % (trace, want, src), {'src': src})
+        elif not handled and trace:
+            chk.violation('short-operands-continued|' + form, 'the script went on after an unhandled operand shortage: %s in `%s`' % (trace, src), {'src': src})
+        else:
+            chk.count('short_operand_errors_reported')
+
+
 def probes(chk, runner):
     for e in chk.findings.open + chk.findings.fixed:
         src = e.get('probe')
@@ -176,6 +236,7 @@ def main(tier):
     probes(chk, runner)
     loops(chk, runner, tier)
     scheduled(chk, runner, tier, avoid)
+    short_operands(chk, runner, tier)
     prefix = [{'op': 'vm', 'vm': 0, 'max_runtime_ms': 4000, 'auto_renew': True, 'mon': {'stack': True}}]
     results = core.run_items(runner, prefix, items, batch=20, base_cpu_ms=5000, item_cpu_ms=lambda it: 3000, counters=chk.counters)
     feats = set()
